@@ -126,6 +126,20 @@ class Inliner:
             self.defs = collect_defs(modules)
         self.new = {q: v for q, v in self.defs.items() if q not in vocabulary and not (q.split('.')[-1].startswith('__') and q.endswith('__'))}
         self.inl = {q: v for q, v in self.new.items() if _inlinable(v[2])}
+        self.gen_helpers = {}
+        for q_, (m_, c_, f_) in self.new.items():
+            if q_ in self.inl:
+                continue
+            is_gen = any(isinstance(x, (ast.Yield, ast.YieldFrom)) for x in ast.walk(f_))
+            a_ = f_.args
+            simple = not (a_.vararg or a_.kwarg or a_.posonlyargs) and not [d for d in f_.decorator_list if not (isinstance(d, ast.Name) and d.id == 'staticmethod')]
+            rec = any(isinstance(x, ast.Call) and ((isinstance(x.func, ast.Attribute) and x.func.attr == f_.name) or (isinstance(x.func, ast.Name) and x.func.id == f_.name))
+                      for x in ast.walk(f_))
+            rets = [x for x in ast.walk(f_) if isinstance(x, ast.Return)]
+            nested = any(isinstance(x, (ast.FunctionDef, ast.Lambda, ast.ClassDef)) and x is not f_ for x in ast.walk(f_))
+            # a bare `return` inside the helper would end the caller too: only helpers without return
+            if is_gen and simple and not rec and not rets and not nested:
+                self.gen_helpers[q_] = (m_, c_, f_)
         self.counter = 0
         self.inlined_sites = 0
         self.report = []
@@ -211,6 +225,10 @@ class Inliner:
                 out_ += [ast.copy_location(ast.Assign(targets=[ast.Name(id=t, ctx=ast.Store())], value=ast.Name(id=tm, ctx=ast.Load())), v)
                          for t, tm in zip(tuple_targets, tmp)]
                 return out_
+            if tuple_targets is not None:
+                # a non-tuple value (e.g. the result of another call) is unpacked by the caller's own targets
+                tg = ast.Tuple(elts=[ast.Name(id=t, ctx=ast.Store()) for t in tuple_targets], ctx=ast.Store())
+                return [ast.copy_location(ast.Assign(targets=[tg], value=v), value if value is not None else call)]
             return [ast.copy_location(ast.Assign(targets=[ast.Name(id=res_name, ctx=ast.Store())], value=v), value if value is not None else call)]
         body = _elim_returns(body, assign)
         for s in pre_stmts + body:
@@ -234,9 +252,78 @@ class Inliner:
             return [('test', s.test)]
         return []
 
+    def _gen_helper_of(self, s, mod, cls):
+        """(call, helper qual) when statement s only re-yields a new generator helper"""
+        call = None
+        if isinstance(s, ast.Expr) and isinstance(s.value, ast.YieldFrom) and isinstance(s.value.value, ast.Call):
+            call = s.value.value
+        elif isinstance(s, ast.For) and isinstance(s.iter, ast.Call) and not s.orelse and len(s.body) == 1 and isinstance(s.body[0], ast.Expr) \
+                and isinstance(s.body[0].value, ast.Yield) and s.body[0].value.value is not None \
+                and ast.dump(s.body[0].value.value) == ast.dump(s.target).replace('Store()', 'Load()'):
+            call = s.iter
+        if call is None:
+            return None
+        f = call.func
+        q = None
+        if isinstance(f, ast.Attribute) and isinstance(f.value, ast.Name) and cls is not None and f.value.id in ('self', cls.name):
+            q = '%s.%s' % (cls.name, f.attr)
+        elif isinstance(f, ast.Name):
+            q = '%s:%s' % (mod, f.id)
+        if q in self.gen_helpers:
+            return call, q
+        return None
+
+    def expand_generator(self, call, q):
+        mod, cls, fn = self.gen_helpers[q]
+        self.counter += 1
+        pre = '_i%d_' % self.counter
+        params = [a.arg for a in fn.args.args]
+        if cls is not None and not _is_static(fn):
+            params = params[1:]
+        defaults = dict(zip([a.arg for a in fn.args.args][len(fn.args.args) - len(fn.args.defaults):], fn.args.defaults))
+        bound = {}
+        for p_, a_ in zip(params, call.args):
+            bound[p_] = a_
+        for k in call.keywords:
+            if k.arg:
+                bound[k.arg] = k.value
+        for p_ in params:
+            if p_ not in bound:
+                if p_ in defaults:
+                    bound[p_] = defaults[p_]
+                else:
+                    return None
+        body = [copy.deepcopy(s_) for s_ in fn.body if not (isinstance(s_, ast.Expr) and isinstance(s_.value, ast.Constant))]
+        stored = {x.id for s_ in body for x in ast.walk(s_) if isinstance(x, ast.Name) and isinstance(x.ctx, (ast.Store, ast.Del))}
+        subst, pre_stmts, mapping = {}, [], {}
+        for p_ in params:
+            a_ = bound[p_]
+            simple = isinstance(a_, (ast.Constant, ast.Name)) or (isinstance(a_, ast.Attribute) and isinstance(a_.value, ast.Name))
+            if simple and p_ not in stored:
+                subst[p_] = a_
+            else:
+                mapping[p_] = pre + p_
+                pre_stmts.append(ast.copy_location(ast.Assign(targets=[ast.Name(id=pre + p_, ctx=ast.Store())], value=a_), call))
+        for n_ in stored:
+            if n_ not in mapping:
+                mapping[n_] = pre + n_
+        rn = _Rename(mapping, subst)
+        body = [rn.visit(s_) for s_ in body]
+        for s_ in pre_stmts + body:
+            ast.fix_missing_locations(s_)
+        self.inlined_sites += 1
+        self.report.append('%s (generator) inlined at line %d' % (q, call.lineno))
+        return pre_stmts + body
+
     def rewrite_block(self, stmts, mod, cls):
         out = []
         for s in stmts:
+            gh = self._gen_helper_of(s, mod, cls)
+            if gh is not None:
+                r = self.expand_generator(*gh)
+                if r is not None:
+                    out.extend(self.rewrite_block(r, *self._ctx_of(gh[1])))
+                    continue
             pre = []
             for field, e in self.own_exprs(s):
                 calls = [c for c in ast.walk(e) if isinstance(c, ast.Call) and self.target(c, mod, cls)]
@@ -249,7 +336,7 @@ class Inliner:
                     if isinstance(s, ast.Assign) and s.value is c and len(s.targets) == 1 and isinstance(s.targets[0], ast.Name):
                         direct = s.targets[0].id
                     if isinstance(s, ast.Assign) and s.value is c and len(s.targets) == 1 and isinstance(s.targets[0], ast.Tuple) \
-                            and all(isinstance(x, ast.Name) for x in s.targets[0].elts) and self._returns_tuples(q, len(s.targets[0].elts)):
+                            and all(isinstance(x, ast.Name) for x in s.targets[0].elts):
                         tup = [x.id for x in s.targets[0].elts]
                         direct = '_unused'
                     r = self.expand(c, q, direct if tup is None else None, tuple_targets=tup)
@@ -332,7 +419,7 @@ class Inliner:
         return bool(rets) and all(isinstance(x.value, ast.Tuple) and len(x.value.elts) == n for x in rets)
 
     def _ctx_of(self, q):
-        mod, cls, fn = self.inl[q]
+        mod, cls, fn = self.inl[q] if q in self.inl else self.gen_helpers[q]
         return mod, cls
 
     def _replace(self, stmt, old, new):
@@ -359,7 +446,7 @@ class Inliner:
                 if isinstance(sub, ast.FunctionDef) and sub is not fn:
                     sub.body = self.rewrite_block(sub.body, mod, cls)
         # drop helpers that are no longer called anywhere
-        for q, (mod, cls, fn) in list(self.inl.items()):
+        for q, (mod, cls, fn) in list(self.inl.items()) + list(self.gen_helpers.items()):
             still = False
             for m2, tree in self.modules.items():
                 for c in ast.walk(tree):
@@ -432,6 +519,24 @@ def _collapse_aliases(fn, prefix=r'_i\d+_'):
     for x in _own_nodes(fn):
         if isinstance(x, ast.Expr) and isinstance(x.value, ast.Name) and gen.match(x.value.id):
             _drop_stmt(fn, x)
+    # a generated result temporary bound once to a constant or a plain name is that constant / name wherever it is read
+    for _round in range(200):
+        nodes = _own_nodes(fn)
+        hit = None
+        for a in nodes:
+            if isinstance(a, ast.Assign) and len(a.targets) == 1 and isinstance(a.targets[0], ast.Name) and re.match(r'_i\d+_(ret|r\d+)$', a.targets[0].id) \
+                    and isinstance(a.value, ast.Constant):
+                T_ = a.targets[0].id
+                stores = [x for x in nodes if isinstance(x, ast.Name) and x.id == T_ and isinstance(x.ctx, ast.Store)]
+                if len(stores) == 1:
+                    hit = (a, T_)
+                    break
+        if hit is None:
+            break
+        a, T_ = hit
+        for x in [x for x in nodes if isinstance(x, ast.Name) and x.id == T_ and isinstance(x.ctx, ast.Load)]:
+            _replace_in(fn, x, copy.deepcopy(a.value))
+        _drop_stmt(fn, a)
     # a generated temporary bound once and read once by the statement that follows is that expression
     for _round in range(200):
         nodes = _own_nodes(fn)
